@@ -1,5 +1,6 @@
 import PgBifrost.Proofs.RabbitConfirmed
 import PgBifrost.Proofs.RabbitSrc
+import PgBifrost.Gen.WorkerLoops
 /-!
 # C13 — RabbitMQ: written ⇒ the broker positively confirmed every message (property theorems)
 
@@ -263,5 +264,24 @@ theorem rabbit_attempt_as_in_source (st : St) (msgs : List Nat) (toks : List Tok
     (let r := PgBifrost.Gen.RabbitSrc.attempt msgs ⟨st, toks, []⟩
      (r.2.st, r.2.toks, r.2.evs, r.1)) = attempt .fixed st msgs toks :=
   PgBifrost.Proofs.RabbitSrc.attempt_eq st msgs toks
+
+/-- what the worker's loop sees of a batch's retry loop -/
+def loopInOf (o : Outcome) : PgBifrost.WorkerLoop.LoopIn := ⟨false, o = .panic, o = .exhausted, false⟩
+
+/-- The loop body of the RabbitMQ worker's `StartTransporting`, translated statement by statement, is the generic
+worker iteration: it reports the batch's transactions exactly when the retry loop ended `written` (every message
+confirmed, `rabbit_written_all_confirmed`), and stops the worker when it ended exhausted or panicked. -/
+theorem rabbit_loop_as_in_source :
+    PgBifrost.Gen.WorkerLoops.rabbitIteration = PgBifrost.WorkerLoop.iteration ∧
+    (∀ o : Outcome, o ≠ .hang → o ≠ .starve → o ≠ .dead →
+      ((PgBifrost.Gen.WorkerLoops.rabbitIteration (loopInOf o)).reported = true ↔ o = .written)) ∧
+    (∀ o : Outcome, o = .exhausted ∨ o = .panic →
+      (PgBifrost.Gen.WorkerLoops.rabbitIteration (loopInOf o)).stops = true) := by
+  refine ⟨?_, ?_, ?_⟩
+  · funext i; obtain ⟨a, b, c, d⟩ := i; cases a <;> cases b <;> cases c <;> cases d <;> rfl
+  · intro o h1 h2 h3
+    cases o <;> simp_all [PgBifrost.Gen.WorkerLoops.rabbitIteration, loopInOf, Id.run, pure]
+  · intro o h
+    rcases h with h | h <;> subst h <;> simp [PgBifrost.Gen.WorkerLoops.rabbitIteration, loopInOf, Id.run, pure]
 
 end PgBifrost.Props.C13
